@@ -513,11 +513,78 @@ def rule_r4(prog, res):
     res.floor('R4', 'wrapper marks in the decorator', k, 1)
 
 
+# ------------------------------------------------------------------- R5
+def rule_r5(prog, res):
+    res.rule('R5', 'the value the user function returned reaches the caller '
+             'untouched: only wrapped in a list, never iterated, converted '
+             'or registered for clean-up')
+    app = prog.method('spyne.application:Application', 'process_request')
+    n = 0
+    for a in walk_no_defs(app.node):
+        if not (isinstance(a, ast.Assign) and any(
+                unparse(t) == 'ctx.out_object' for t in a.targets)):
+            continue
+        n += 1
+        v = a.value
+        ok = (isinstance(v, ast.Call) and call_name(v) in ('call_wrapper',)) \
+            or (isinstance(v, ast.List) and len(v.elts) == 1 and
+                unparse(v.elts[0]) == 'ctx.out_object') or (
+                isinstance(v, ast.Constant)) or (
+                isinstance(v, (ast.List, ast.Tuple)) and all(
+                    isinstance(e, ast.Constant) for e in v.elts))
+        where = '%s:%d' % (app.module.relpath, a.lineno)
+        res.ob('R5', where, 'process_request: ctx.out_object = %s' %
+               unparse(v)[:50], 'ok' if ok else 'VIOLATED')
+        if not ok:
+            res.finding('R5', 'Application.process_request|result-touched|%s'
+                        % unparse(v)[:40], where, 'process_request rebuilds '
+                        'the result as %s: an Ignored marker, a generator or '
+                        'any non-sequence result is iterated/converted (or '
+                        'raises) here, so the in-process caller and the wire '
+                        'see different outcomes' % unparse(v)[:60])
+    res.floor('R5', 'assignments to ctx.out_object in process_request', n, 2)
+    k = 0
+    for cfq in ('spyne.service:ServiceBaseBase', 'spyne.service:ServiceBase',
+                'spyne.application:Application'):
+        c = prog.cls(cfq, required=False)
+        f = c.methods.get('call_wrapper') if c is not None else None
+        if f is None:
+            continue
+        k += 1
+        results = {t.id for a in walk_no_defs(f.node) if isinstance(
+            a, ast.Assign) and isinstance(a.value, ast.Call) and (
+            'function' in unparse(a.value.func))
+            for t in a.targets if isinstance(t, ast.Name)}
+        bad = []
+        for c_ in calls_in(f.node):
+            if isinstance(c_.func, ast.Attribute) and c_.func.attr in (
+                    'append', 'add', 'extend', 'insert') and unparse(
+                    c_.func.value).startswith('ctx.') and any(
+                    isinstance(x, ast.Name) and x.id in results
+                    for arg in c_.args for x in ast.walk(arg)):
+                bad.append(c_)
+        res.ob('R5', f.where, '%s: the function result is %s' % (
+            f.qualname, 'registered with %s' % unparse(bad[0])[:40] if bad
+            else 'returned without being stored on the context'),
+            'VIOLATED' if bad else 'ok')
+        for c_ in bad:
+            res.finding('R5', '%s|result-registered|%s' % (
+                f.qualname, unparse(c_.func.value)),
+                '%s:%d' % (f.module.relpath, c_.lineno),
+                '%s stores the function\'s result in %s: NullServer closes '
+                'the context (and everything registered on it) before it '
+                'returns the value, so a generator result reaches the direct '
+                'caller already closed, while every wire protocol still '
+                'delivers its items' % (f.qualname, unparse(c_.func.value)))
+    res.floor('R5', 'call_wrapper implementations', k, 1)
+
+
 def run(prog, res, tier):
     res.run_rule(rule_r1, prog, res)
     res.run_rule(rule_r2, prog, res)
     res.run_rule(rule_r3, prog, res)
     res.run_rule(rule_r4, prog, res)
+    res.run_rule(rule_r5, prog, res)
 
 
 _N = 'spyne/server/null.py'
@@ -525,6 +592,25 @@ _A = 'spyne/application.py'
 _D = 'spyne/descriptor.py'
 
 MUTANTS = [
+    Mutant('result-normalised-to-list', 'R5', 'fire', _A,
+           in_func('Application.process_request',
+                   "                ctx.out_object = [ctx.out_object]\n",
+                   "                ctx.out_object = [ctx.out_object]\n"
+                   "            elif not isinstance(ctx.out_object, (list, "
+                   "tuple)):\n"
+                   "                ctx.out_object = list(ctx.out_object)\n"),
+           'result-touched'),
+    Mutant('generator-result-registered', 'R5', 'fire', 'spyne/service.py',
+           in_func('ServiceBaseBase.call_wrapper',
+                   "            return ctx.function(*args)",
+                   "            retval = ctx.function(*args)\n"
+                   "            ctx.files.append(retval)\n"
+                   "            return retval"), 'result-registered'),
+    Mutant('result-through-local', 'R5', 'benign', 'spyne/service.py',
+           in_func('ServiceBaseBase.call_wrapper',
+                   "            return ctx.function(*args)",
+                   "            retval = ctx.function(*args)\n"
+                   "            return retval"), None),
     Mutant('aux-result-through-callback', 'R4', 'fire', _N,
            in_func('_FunctionCall.__call__',
                    "                    retval = _cb_sync(ctx, cnt, self)\n",
